@@ -107,7 +107,11 @@ impl GV {
             GV::D(d) => {
                 out.push_str("{\n");
                 for (k, v) in d {
-                    out.push_str(&atom(k));
+                    // numeric keys (axis mapping nodes) stay bare, as Glyphs.app writes them
+                    let numeric = !k.is_empty()
+                        && k.parse::<f64>().is_ok()
+                        && k.bytes().all(|c| c.is_ascii_digit() || c == b'.' || c == b'-');
+                    out.push_str(&if numeric { k.clone() } else { atom(k) });
                     out.push_str(" = ");
                     v.print(out);
                     out.push_str(";\n");
